@@ -246,6 +246,31 @@ func TestC06(t *testing.T) {
 		"contains a label reference; distinct = hash(case).",
 		func(r *rig.Run) {
 			ev := r.Ev
+			// many references to one label (more than a byte-sized or 16-entry structure holds), before and after its definition
+			if rig.Shard() == 0 {
+				for _, n := range []int{15, 16, 17, 63, 255, 256, 257, 300, 1000} {
+					for _, labelFirst := range []bool{false, true} {
+						var ops []asmcat.Op
+						if labelFirst {
+							ops = append(ops, asmcat.Op{Kind: "ins", Method: "NOP"}, asmcat.Op{Kind: "label", Label: "l0"})
+						}
+						for i := 0; i < n; i++ {
+							ops = append(ops, asmcat.Op{Kind: "ins", Method: "JMP_abs", Label: "l0"})
+							if labelFirst && i < 20 || !labelFirst && i >= n-20 { // relative branches too, where they are in range
+								ops = append(ops, asmcat.Op{Kind: "ins", Method: "BRA", Label: "l0"})
+							}
+						}
+						if !labelFirst {
+							ops = append(ops, asmcat.Op{Kind: "label", Label: "l0"})
+						}
+						c := c06Case{Ops: ops, Tight: n%2 == 1}
+						r.CheckSweep("many-refs", c, func() error { return c06Check(c) })
+						raw, _ := json.Marshal(c)
+						ev.Case(true, rig.Hash64(raw), nil)
+						ev.Class("many-references-to-one-label")
+					}
+				}
+			}
 			r.Rapid("rapid", rig.Pick(40000, 150000), func(t *rapid.T) {
 				c := c06Case{Listing: rapid.Bool().Draw(t, "listing")}
 				c.Ops = asmcat.GenHistory(t, asmcat.GenOpts{MaxOps: rig.Pick(40, 120), Labels: true, Data: true, Comments: true, SetBase: true, Assume: true})
